@@ -3,7 +3,7 @@ import FimVerif.Model.Validate
 import FimVerif.Proofs.Lemmas.C10Dec
 /-! Driver for C10: runs `Validate.validate` / `Validate.connect` on request lines.
 
-`["validate", overrides|null, exp, [[ty,[props]]..], [[ty, site|null, [props], owner|null, [iface..]]..]]`
+`["validate", overrides|null, exp, [[ty,[props]]..], [[ty, site|null, [props], owner|null, [iface..], [hollow props]?]..]]`
   iface = `["d", name, kind]` | `["p", name, null | [[kind, owner|null]..]]`
   overrides = `{"svc": {ty: [min,num,sites,inst,[req],[forb],[iftypes]]}, "node": {ty: [[req],[forb]]}}`
   reply `[status, [site|null ..], specOK, specFull]`, status = "ok" | error kind; the two booleans are
@@ -30,9 +30,14 @@ def parseSIface (j : Json) : Option SIface := do
   else pure (.port n (some (← (← arr? x).mapM parseNIface)))
 
 def parseSvc (j : Json) : Option Svc := do
-  let [ty, site, props, owner, ifs] ← arr? j | none
-  pure { ty := ← ty.getStr?.toOption, site := ← optStr site, props := ← getStrs props,
-         owner := ← optStr owner, ifs := ← (← arr? ifs).mapM parseSIface }
+  match ← arr? j with
+  | [ty, site, props, owner, ifs] =>
+    pure { ty := ← ty.getStr?.toOption, site := ← optStr site, props := ← getStrs props,
+           owner := ← optStr owner, ifs := ← (← arr? ifs).mapM parseSIface, hollow := [] }
+  | [ty, site, props, owner, ifs, hollow] =>
+    pure { ty := ← ty.getStr?.toOption, site := ← optStr site, props := ← getStrs props,
+           owner := ← optStr owner, ifs := ← (← arr? ifs).mapM parseSIface, hollow := ← getStrs hollow }
+  | _ => none
 
 def parseNode (j : Json) : Option Node := do
   let [ty, props] ← arr? j | none
